@@ -244,6 +244,47 @@ func c08Random() []byte {
 	return b
 }
 
+// c08AwaitsCCS: do the events sent so far (dropped ones aside) form a prefix of a legal flow whose
+// next item is the ChangeCipherSpec?  Then a datagram endpoint drops further handshake records
+// as retransmissions, and the puppet must not enter them in its transcript.
+func c08AwaitsCCS(in c08Input, sent []c08Ev) bool {
+	var core []c08Ev
+	seenHello := false
+	for _, e := range sent {
+		switch e.K {
+		case "WARN", "OLD":
+			continue
+		case "HVR":
+			if in.Target == "client" {
+				continue
+			}
+		case "CH":
+			if in.Target == "server" && (!e.Ck || seenHello) {
+				continue // answered by a HelloVerifyRequest, or a retransmission
+			}
+			seenHello = true
+		}
+		core = append(core, e)
+	}
+	base := in
+	base.Stack = "tlcp"
+	for _, fl := range c08Legal(base) {
+		if len(core) >= len(fl) || fl[len(core)].K != "CCS" {
+			continue
+		}
+		ok := true
+		for i, e := range core {
+			if e.K != fl[i].K || !e.OK || (e.K == "SH" || e.K == "CH" || (e.K == "CERT" && in.Target == "server")) && e.Aux != fl[i].Aux {
+				ok = false
+			}
+		}
+		if ok {
+			return true
+		}
+	}
+	return false
+}
+
 // c08Exec runs one event sequence against a fresh real endpoint of the configured stack / role.
 func c08Exec(in c08Input, reg *tk.Registry, evs []c08Ev, prev *c08Sess, post bool) (puppet.TargetOutcome, *puppet.Peer) {
 	pk := tk.GetPKI()
@@ -272,12 +313,29 @@ func c08Exec(in c08Input, reg *tk.Registry, evs []c08Ev, prev *c08Sess, post boo
 		return func(e c08Ev) { c08ToServer(p, e, in.Suite, prev) }
 	}
 	loop := func(p *puppet.Peer, send func(e c08Ev)) {
+		var sent []c08Ev
 		for _, e := range evs {
 			p.Absorb(5)
 			if p.L.TargetDone() {
 				return
 			}
+			if in.Stack == "dtlcp" && e.K != "CCS" && e.K != "WARN" && e.K != "APP" && e.K != "END" && e.K != "OLD" && c08AwaitsCCS(in, sent) {
+				// dropped by the target as a retransmission whatever it contains: send a message of
+				// that kind that leaves the puppet's own state and transcript alone
+				typ := map[string]byte{"SH": puppet.HSServerHello, "CERT": puppet.HSCertificate, "SKX": puppet.HSServerKeyX, "CR": puppet.HSCertRequest,
+					"SHD": puppet.HSServerDone, "CH": puppet.HSClientHello, "CKX": puppet.HSClientKeyX, "CV": puppet.HSCertVerify, "FIN": puppet.HSFinished,
+					"HVR": puppet.HSHelloVerify, "FRAG": puppet.HSFinished}[e.K]
+				p.SendHS(typ, []byte{0, 1, 2, 3}, false)
+				continue
+			}
+			if in.Stack == "dtlcp" && e.K == "CCS" && !c08AwaitsCCS(in, sent) {
+				// a ChangeCipherSpec record the target cannot use (it drops it): the event is "a CCS of
+				// the current epoch arrives"; the puppet keeps writing in the epoch the target reads
+				p.SendRecord(puppet.RecCCS, []byte{1})
+				continue
+			}
 			send(e)
+			sent = append(sent, e)
 		}
 		p.Absorb(5)
 		if post && !p.L.TargetDone() { // after completion application data must be delivered
@@ -337,6 +395,9 @@ func c08Run(in c08Input) (accepted bool, alert int, direct string, delivered str
 		if a.Level == 2 && alert == 0 {
 			alert = int(a.Code)
 		}
+	}
+	if os.Getenv("HX_DEBUG") != "" {
+		fmt.Fprintf(os.Stderr, "c08 %+v: complete=%v err=%q %q alerts=%v read=%q readerr=%q hung=%v\n", in, o.Res.Complete, o.Res.Err, o.Res.ErrText, p.Alerts, o.Read, o.ReadErr, o.Hung)
 	}
 	if o.Panic != "" {
 		direct = "panic: " + o.Panic
